@@ -32,7 +32,7 @@ def run_harness(exe, cases, workdir, tag, timeout=900):
         bad = todo[k] if k < len(todo) else todo[-1]
         produced = blocks[k][1:] if k < len(blocks) else []
         nresp = len([l for l in produced if l == "endst" or l.startswith("cst ")])
-        cmds = [l for l in bad[1:] if l.split(" ")[0] in ("new", "copy", "op", "qry", "cw")]
+        cmds = [l for l in bad[1:] if l.split(" ")[0] in ("new", "copy", "op", "qry", "cw", "hurry")]
         line = cmds[nresp] if nresp < len(cmds) else "(unknown)"
         how = "timeout" if rc == 124 else "crash rc=%d %s" % (rc, (err or "").strip()[-200:])
         crashes.append((bad, line, how))
